@@ -36,6 +36,19 @@ only call them "optional" in the sense of "gated by graph.enabled"; core.emit_tr
 unguarded, the declared guard is inside emit_trace); T1, T2 core retrieval, meta-filter, canonical log appends, the
 snapshot BODY write.
 
+Fault modes: "before" = the spy raises instead of calling the callable (all sites); "after" = the callable does its work and
+then raises, i.e. its result/report is lost (AFTER_OK sites only; baseline = the same run without fault).
+Baselines are built PER TURN: a subsystem is switched off in the baseline only in the turns in which its fault really fired
+(a turn in which e.g. no split candidate existed ran normally, so its baseline turn runs normally too).
+
+Genuine defects found by this check (known-finding paths below, fixes in proposed_fixes/C20-*.diff):
+  boot-gel-edge-attrs-unsanitized    snapshot._sanitize_gel_for_write copies a GEL edge's attrs verbatim; a snapshot file with
+                                     attrs null/str/list or a non-numeric attrs.coact is imported at boot and the (unguarded)
+                                     gel_observe/gel_tick abort the first turn when graph.enabled
+  mmr-fault-drops-fusion-telemetry   quality.apply_quality: fusion and MMR share one try; an MMR failure resets q_fusion_used /
+                                     q_fusion_meta but keeps the fused ranking, so t2.jsonl (metrics gate on) loses
+                                     t2q.fusion_mode/alpha_semantic/lex_hits w.r.t. the MMR-off run
+
 Sub-checks
   sites       every site x 8 exception types x generated worlds (1-3 real turns through Orchestrator.run_turn)
   combos      Hypothesis-sampled pairs/triples of sites x exception types x worlds (shrinks)
@@ -63,15 +76,16 @@ RULE = ("sites: for each generated world (1-2 concept graphs, 5-7 episodes shari
         "graph with a strong triangle + weak bridge so merge/split/promotion/hybrid have work, injected proposed deltas, "
         "1-3 turns, random profile of other optional subsystems switched on) x every declared site x 8 exception types "
         "(ValueError, KeyError, TypeError, RuntimeError, OSError, ZeroDivisionError, AttributeError, custom Exception "
-        "subclass): the callable at the site is shadowed by a spy that raises; a case is NON-TRIVIAL only when the spy "
+        "subclass) x mode (raise instead of the call; for 8 sites also raise after the call did its work): the callable at the "
+        "site is shadowed by a spy that raises; a case is NON-TRIVIAL only when the spy "
         "was really hit (fault reached) and the world had t1.pops>0 and t2.k_returned>0; distinct = (site, exception, "
         "world digest). combos: same with 2-3 compatible sites faulted at once, non-trivial = >=2 faults reached. "
         "bootfiles: non-trivial = the loader really opened the planted entry (spy on snapshot._read_text / the entry "
         "was picked by _pick_latest_snapshot_path); distinct = (class, content digest, world digest).")
 ASSUMPTIONS = [
     "oracle per case: every turn returns (no exception, str line) and emits exactly one t1/t2/t4/apply/turn record; the five "
-    "canonical streams are byte-identical to a fault-free baseline run of the same world in which the faulted subsystem is "
-    "off/idle: hybrid fault => t2.hybrid.enabled=false; fusion fault => t2.quality.enabled=false; MMR fault => mmr.enabled=false; "
+    "canonical streams and the returned lines are byte-identical to a fault-free baseline run of the same world in which the "
+    "faulted subsystem is off/idle in exactly the turns where the fault fired: hybrid fault => t2.hybrid.enabled=false; fusion fault => t2.quality.enabled=false; MMR fault => mmr.enabled=false; "
     "items_for_fusion fault => both; shadow-trace fault => quality.shadow=false; reflection compute/write fault => "
     "t3.allow_reflection=false; reflection telemetry fault => same run without fault; adapter fault => t3.backend=rulebased; "
     "GEL pass fault => that pass and the later passes of the block disabled (earlier passes stay on); cache invalidation "
@@ -207,9 +221,6 @@ AFTER_OK = ["boot.load_latest_snapshot", "reflwrite.write_reflection_entries", "
 # which snapshot-dir contents let a boot site be reached
 BOOT_KINDS = {"boot._read_header_payload": ["garbage", "own"], "boot._import_store_from_snapshot": ["own"],
               "boot._sanitize_gel_for_load": ["own"]}
-
-# sites whose fault escapes run_turn on the unchanged tree: finding id -> site names (filled by the known-finding path)
-KNOWN_ESCAPES = {}
 
 
 def _fast_tmp():
@@ -655,7 +666,7 @@ def _mask_field(data: bytes, field: str) -> bytes:
 
 
 F_MMR = "mmr-fault-drops-fusion-telemetry"
-F_ATTRS = "boot-gel-edge-attrs-not-dict"
+F_ATTRS = "boot-gel-edge-attrs-unsanitized"
 FUSION_TELEMETRY = {"t2q.fusion_mode", "t2q.alpha_semantic", "t2q.lex_hits"}
 
 
@@ -764,10 +775,6 @@ def check_faults(case, rec=None, labels_extra=()):
         if escaped:
             which = bad[0].split(" at ")[-1].strip("'\" ")
             group = SITES[which]["group"] if which in SITES else which
-            for fid, ss in KNOWN_ESCAPES.items():
-                if which in ss and rec is not None and rec.is_known(fid):
-                    rec.case(nontrivial=False, labels=["known:" + fid])
-                    return
             raise Violation(f"fault {bad[0]!r} injected at declared fail-soft site escaped run_turn (turn {len(f['exc'])}); "
                             f"sites {names}", case, f"escape:{group}")
         # not our exception: does the fault-free baseline raise the same way?
@@ -806,8 +813,8 @@ def check_faults(case, rec=None, labels_extra=()):
                 if k == "t2.jsonl" and "quality.maybe_apply_mmr" in fired_any and _only_fusion_telemetry_lost(fa, ba):
                     # finding mmr-fault-drops-fusion-telemetry: exactly the fusion layer's own fields are missing, nothing else
                     if rec is not None and rec.is_known(F_MMR):
-                        rec.case(nontrivial=False, labels=["known:" + F_MMR] + list(labels_extra))
-                        return
+                        labels.append("known:" + F_MMR)  # only this stream's failure mode is excused; the rest is still compared
+                        continue
                     raise Violation(f"t2.jsonl differs from the MMR-off baseline with faults {case['faults']}: the MMR failure also "
                                     f"wiped the fusion layer's record fields although the fused ranking is kept: {_first_diff(fa, ba)}",
                                     case, "diff:mmr-fault-drops-fusion-telemetry")
@@ -1162,6 +1169,10 @@ def boot_classes(rng: random.Random):
     keys = rng.sample(sorted(ge), rng.randint(2, len(ge)))
     mut("gel_edges_garbage", gel={"nodes": {"e1": 5, "e2": None}, "edges": {k: ge[k] for k in keys}, "meta": {"merges": 3, "last_update": {}}})
     mut("graph_instead_of_gel", gel="__del__", graph={"nodes": {}, "edges": {k: ge[k] for k in keys}, "meta": []})
+    mut("gel_edge_attrs", gel={"edges": {"e1→e2": {"src": "e1", "dst": "e2", "weight": 0.5,
+                                                    "attrs": rng.choice([None, "no", 5, [1], {"coact": "many"}, {"last_seen_turn": "x", "coact": None}])}}})
+    mut("gel_edges_list", gel={"edges": [{"src": "e1", "dst": "e2", "weight": 0.5, "rel": "coact", "attrs": rng.choice([{}, None, {"coact": 1.5}])},
+                                         5, None, {"src": "e2"}], "nodes": [{"id": "e1"}, None, 7]})
     mut("wrong_misc", turn="x", agent=[1], applied="many", deltas=5, schema_version=rng.choice([None, 9, "v0", []]))
     return out
 
@@ -1210,7 +1221,23 @@ def _payload_of(data: bytes):
         return None
 
 
-def entries_have_nondict_edge_attrs(entries) -> bool:
+def _is_attrs_crash(exc_text: str) -> bool:
+    return (exc_text.startswith("AttributeError") and "has no attribute 'get'" in exc_text) or \
+           (exc_text.startswith("ValueError") and "invalid literal for int()" in exc_text) or \
+           (exc_text.startswith("TypeError") and "int() argument must be" in exc_text) or \
+           (exc_text.startswith("OverflowError") and "cannot convert float" in exc_text) or \
+           (exc_text.startswith("ValueError") and "cannot convert float NaN" in exc_text)
+
+
+def _int_ok(v) -> bool:
+    try:
+        int(v)
+        return True
+    except Exception:
+        return False
+
+
+def entries_have_bad_edge_attrs(entries) -> bool:
     for e in entries:
         if e["kind"] != "file":
             continue
@@ -1222,8 +1249,10 @@ def entries_have_nondict_edge_attrs(entries) -> bool:
             edges = g.get("edges") if isinstance(g, dict) else None
             vals = list(edges.values()) if isinstance(edges, dict) else (edges if isinstance(edges, list) else [])
             for ed in vals:
-                if isinstance(ed, dict) and "attrs" in ed and not isinstance(ed["attrs"], dict):
-                    return True
+                if isinstance(ed, dict) and "attrs" in ed:
+                    a = ed["attrs"]
+                    if not isinstance(a, dict) or ("coact" in a and not _int_ok(a["coact"])):
+                        return True
     return False
 
 
@@ -1245,14 +1274,16 @@ def check_bootfile(case, rec=None, labels_extra=()):
             if rec is not None:
                 rec.case(nontrivial=False, labels=["baseline_raises"])
             return
-        if "has no attribute 'get'" in bad[0] and bad[0].startswith("AttributeError") and entries_have_nondict_edge_attrs(entries):
-            # finding boot-gel-edge-attrs-not-dict: the loader imports a GEL edge whose attrs is not a mapping
+        if _is_attrs_crash(bad[0]) and entries_have_bad_edge_attrs(entries):
+            # finding boot-gel-edge-attrs-unsanitized: the loader imports a GEL edge's attrs verbatim (not a mapping, or a
+            # non-numeric coact counter) and the unguarded GEL observe/tick crash on it
             if rec is not None and rec.is_known(F_ATTRS):
                 rec.case(nontrivial=False, labels=["known:" + F_ATTRS, f"class:{cls}"] + list(labels_extra))
                 return
-            raise Violation(f"turn {len(f['exc'])} raised {bad[0]!r}: the boot loader imported a GEL edge whose 'attrs' is not a mapping "
-                            f"from {[e['name'] for e in entries]} (class {cls}) and GEL observe/tick crashed on it; with an empty "
-                            f"snapshot dir the same turns complete", case, "boot-raises:gel-edge-attrs-not-dict")
+            raise Violation(f"turn {len(f['exc'])} raised {bad[0]!r}: the boot loader imported a GEL edge's 'attrs' verbatim (not a "
+                            f"mapping / non-numeric coact) from {[e['name'] for e in entries]} (class {cls}) and GEL observe/tick "
+                            f"crashed on it; with an empty snapshot dir the same turns complete", case,
+                            "boot-raises:gel-edge-attrs-unsanitized")
         raise Violation(f"turn {len(f['exc'])} raised {bad[0]!r} with boot entry class {cls} ({[e['name'] for e in entries]}) in the "
                         f"snapshot dir; with an empty dir the same turns complete", case, f"boot-raises:{cls}:{bad[0].split(':')[0]}")
     n = len(w["turns"])
@@ -1341,7 +1372,11 @@ def sub_bootfiles(rec, seed, shard, nshards, worlds=2, n=60, shrink=True):
             idx += 1
             if idx % nshards != shard:
                 continue
-            case = {"world": w, "cls": cls, "strict": strict, "entries": entries}
+            wc = w
+            if "gel" in cls or "graph" in cls:  # GEL content only matters to a turn when the GEL / hybrid layers are on
+                wc = copy.deepcopy(w)
+                wc["profile"].update({"graph": True, "hybrid": True, "passes": True})
+            case = {"world": wc, "cls": cls, "strict": strict, "entries": entries}
             _guarded(rec, case, check_bootfile, seen_sigs)
     run_hypothesis(rec, seed, boot_contents(), lambda c: check_bootfile(c, rec, ("generated",)), max_examples=n, shrink=shrink,
                    name="bootfiles")
@@ -1457,7 +1492,7 @@ SUBCHECKS = [
 ]
 
 def probe_attrs() -> bool:
-    """Minimal input of boot-gel-edge-attrs-not-dict: one file, one edge with attrs null, graph.enabled, one turn."""
+    """Minimal input of boot-gel-edge-attrs-unsanitized: one file, one edge with attrs null, graph.enabled, one turn."""
     w = gen_world(random.Random(7), boot=True)
     w["turns"] = w["turns"][:1]
     w["profile"] = {"graph": True}
